@@ -55,9 +55,27 @@ CMR_ERROR CMRregularityTestR10(CMR* cmr, DecompositionTask* task, DecompositionQ
   if ((count3 != 4 || count5 != 1) && count3 != 5)
     goto cleanup;
   
-  /* The number of nonzeros in the rows/columns are 2, 2, 2, 2 and 5. Every 3-connected 5-by-5 matrix with this property
-   * represents R10.
+  /* The number of nonzeros in the rows/columns are 3, 3, 3, 3 and 3 or 5. Every 3-connected 5-by-5 matrix with this
+   * property represents R10. The matrices with this property that are not 3-connected have two rows with equal support.
    */
+
+  for (size_t row1 = 0; row1 < 5; ++row1)
+  {
+    size_t first1 = dec->matrix->rowSlice[row1];
+    size_t beyond1 = dec->matrix->rowSlice[row1 + 1];
+    for (size_t row2 = row1 + 1; row2 < 5; ++row2)
+    {
+      size_t first2 = dec->matrix->rowSlice[row2];
+      if (beyond1 - first1 != dec->matrix->rowSlice[row2 + 1] - first2)
+        continue;
+
+      bool equal = true;
+      for (size_t i = 0; i < beyond1 - first1; ++i)
+        equal = equal && dec->matrix->entryColumns[first1 + i] == dec->matrix->entryColumns[first2 + i];
+      if (equal)
+        goto cleanup;
+    }
+  }
 
   if (dec->isTernary)
   {
